@@ -73,15 +73,24 @@ PrintFile(its, last) ==
   IF its = <<>> THEN <<>>
   ELSE Concrete(Head(its)) \o (IF Len(its) = 1 /\ ~last THEN <<>> ELSE <<10>>) \o PrintFile(Tail(its), last)
 
+\* the record stream is not line-based: a class record ends at its ':', so the next record may follow on the
+\* same physical line.  The glued printing of a file has the same items, hence the same answers.
+RECURSIVE PrintGlued(_, _)
+PrintGlued(its, last) ==
+  IF its = <<>> THEN <<>>
+  ELSE Concrete(Head(its)) \o (IF (Len(its) = 1 /\ ~last) \/ (Head(its).t = "c" /\ Len(its) > 1) THEN <<>> ELSE <<10>>)
+       \o PrintGlued(Tail(its), last)
+HasGlue(its) == \E k \in 1..(Len(its) - 1) : its[k].t = "c"
+
 NoisePrinted == [n \in NoiseCounts |-> PrintFile(Noise(n), TRUE)]
 
 EmitG ==
   Mode = "generate" =>
     LET all == Noise(noise) \o items IN
-    PrintT("CASE " \o ToJson(
-      [src |-> NoisePrinted[noise] \o PrintFile(items, Len(items) % 2 = 0),
-       want |-> [is_valid |-> R!IsValid(all), has_line_info |-> R!HasLineInfo(all),
-                 summary |-> R!Summary(all)]]))
+    LET want == [is_valid |-> R!IsValid(all), has_line_info |-> R!HasLineInfo(all), summary |-> R!Summary(all)] IN
+    /\ PrintT("CASE " \o ToJson([src |-> NoisePrinted[noise] \o PrintFile(items, Len(items) % 2 = 0), want |-> want]))
+    /\ HasGlue(items) =>
+         PrintT("CASE " \o ToJson([src |-> NoisePrinted[noise] \o PrintGlued(items, Len(items) % 2 = 0), want |-> want]))
 
 Init == InitM \/ InitG
 Next == Grow \/ Start \/ StepV \/ StepL \/ StepS \/ GrowG
